@@ -5,10 +5,12 @@ From Coq Require Import ExtrOcamlBasic.
 From Verif Require Import Base.GoInt.
 From Verif Require Import Iso8601.Ext Generated.Iso8601Gen Iso8601.Spec.
 From Verif Require Import Generated.AsmAsciiGen Ascii.AsmTotal Generated.AsciiGen Ascii.Spec.
+From Verif Require Import Proto.Ext Generated.ProtoGen Proto.Model.
 Extraction Language OCaml.
 Extraction "model.ml"
   iso8601_Parse iso8601_Valid time_parse rfc3339nano_layout iso_spec
   ascii_Valid ascii_ValidString ascii_ValidPrint ascii_ValidPrintString ascii_EqualFold ascii_EqualFoldString
   ascii_HasPrefixFold ascii_HasPrefixFoldString ascii_HasSuffixFold ascii_HasSuffixFoldString
   ascii_ValidByte ascii_ValidRune ascii_ValidPrintByte ascii_ValidPrintRune
-  is_ascii is_print fold_eq has_prefix_fold has_suffix_fold.
+  is_ascii is_print fold_eq has_prefix_fold has_suffix_fold
+  Proto.Model.Size Proto.Model.Marshal Proto.Model.MarshalTo Proto.Model.Unmarshal zero_val codec_of.
